@@ -76,6 +76,9 @@ func (g *G) stmt() []Stmt {
 	}
 	if g.cfg.Consts {
 		add(4, g.constStmt)
+		if g.inTry == 0 {
+			add(2, g.constShadowStmt)
+		}
 	}
 	if g.cfg.Print {
 		add(3, g.printStmt)
@@ -524,9 +527,19 @@ func (g *G) constStmt() []Stmt {
 		nm := fmt.Sprintf("c%d", g.uniq)
 		if g.chance(10, "cunderscore") && i > 0 {
 			nm = "_"
+		} else if g.chance(20, "cpoolname") {
+			// a name from the common pool: later scopes re-bind it, earlier ones may have bound it
+			if pn := g.newName(false); g.canDeclare(pn) {
+				nm = pn
+			}
 		}
 		var x Expr
-		if i == 0 || g.chance(35, "cexplicit") {
+		if vs := g.varsOf(KInt); (i == 0 || g.chance(35, "cexplicit0")) && len(vs) > 0 && g.chance(22, "calias") {
+			// the bare name of a visible variable or constant: an alias of a literal constant is
+			// a literal constant itself, of anything else the value it has now
+			x = Id(vs[g.pick(len(vs), "caliasv")].Name)
+			g.f("const-alias")
+		} else if i == 0 || g.chance(35, "cexplicit") {
 			if useIota {
 				switch g.pick(4, "iotaform") {
 				case 0:
@@ -556,6 +569,59 @@ func (g *G) constStmt() []Stmt {
 		}
 	}
 	return []Stmt{c}
+}
+
+// constShadowStmt: a literal constant, an inner scope that binds the SAME name to something else
+// (block local, parameter, for-in variable, captured variable, non-literal constant) and, inside that
+// scope, constants defined from the bare name and from an expression over it. The inner constants take
+// the inner binding's value; everything is observed through a self-contained expression, the names stay
+// private to the statement.
+func (g *G) constShadowStmt() []Stmt {
+	g.uniq++
+	a, b, b2 := fmt.Sprintf("ka%d", g.uniq), fmt.Sprintf("kb%d", g.uniq), fmt.Sprintf("kc%d", g.uniq)
+	l1, l2, l3 := g.intLit(), g.intLit(), g.intLit()
+	g.f("const-alias-of-shadowing-name")
+	inner := func(ret bool) []Stmt {
+		st := []Stmt{
+			&ConstDecl{Names: []string{b}, Values: []Expr{Id(a)}},
+			&ConstDecl{Names: []string{b2}, Values: []Expr{&Binary{Op: "+", L: Id(a), R: IntLit(1)}}},
+		}
+		obs := &ArrayLit{Elems: []Expr{Id(b), Id(b2), Id(a)}}
+		if ret {
+			return append(st, &Return{Xs: []Expr{obs}})
+		}
+		if g.cfg.Log {
+			return append(st, &ExprStmt{X: g.L(obs)})
+		}
+		return append(st, &ExprStmt{X: obs})
+	}
+	observe := func(x Expr) Stmt {
+		if g.cfg.Log {
+			return &ExprStmt{X: g.L(x)}
+		}
+		g.uniq++
+		nm := fmt.Sprintf("ko%d", g.uniq)
+		g.declare(&Var{Name: nm, K: KAny})
+		return &Define{Names: []string{nm}, X: x}
+	}
+	out := []Stmt{&ConstDecl{Names: []string{a}, Values: []Expr{l1}}}
+	switch g.pick(5, "constshadowform") {
+	case 0: // block local
+		out = append(out, &If{Cond: BoolLit(true), Then: append([]Stmt{&Define{Names: []string{a}, X: l2}}, inner(false)...)})
+	case 1: // parameter
+		out = append(out, observe(&Call{Fn: &FuncLit{Params: []string{a}, Body: inner(true)}, Args: []Expr{l2}}))
+	case 2: // for-in variable
+		out = append(out, &ForIn{Key: "_", Value: a, X: &ArrayLit{Elems: []Expr{l2, l3}}, Body: inner(false)})
+	case 3: // variable captured from the enclosing function
+		body := []Stmt{&Define{Names: []string{a}, X: l2}, &Return{Xs: []Expr{&FuncLit{Body: inner(true)}}}}
+		out = append(out, observe(&Call{Fn: &Call{Fn: &FuncLit{Body: body}}}))
+	default: // non-literal constant
+		out = append(out, &If{Cond: BoolLit(true), Then: append([]Stmt{&ConstDecl{Names: []string{a}, Values: []Expr{&Index{X: &ArrayLit{Elems: []Expr{l2}}, I: IntLit(0)}}}}, inner(false)...)})
+	}
+	// the outer constant is still the literal afterwards
+	out = append(out, observe(&Binary{Op: "+", L: Id(a), R: IntLit(0)}))
+	g.declare(&Var{Name: a, K: KInt, Const: true})
+	return out
 }
 
 func firstExplicit(vs []Expr) Expr {
